@@ -1,17 +1,22 @@
 import LaunchpadModel.Model.Royalty
 import LaunchpadModel.Model.Proto
 /-!
-Driver for C10 (sg721-base royalties). One output line per input line. State = the collection (none before `inst`).
+Driver for C10 (royalties of sg721-base / -nt / -updatable / -metadata-onchain). One output line per input line.
+State = the collection (none before `inst`).
 
-* `inst at=<ns> via=<0|1> funds=<n> minter=<a> creator=<a> desc=<len> image=<u> link=<-|u> explicit=<-|0|1> stt=<-|ns> roy=<-|a:share>`
+* `inst kind=<base|nt|updatable|onchain> at=<ns> via=<0|1> funds=<n> minter=<a> creator=<a> desc=<len> image=<u> link=<-|u> explicit=<-|0|1> stt=<-|ns> roy=<-|a:share>`
 * `upd at=<ns> sender=<a> desc=<-|len> image=<-|u> link=<keep|clear|u> explicit=<-|0|1> roy=<keep|clear|a:share> creator=<-|a>`
 * `freeze at=<ns> sender=<a>`
 * `stt at=<ns> sender=<a> time=<-|ns> ok=<0|1>`                (ok = witness from the implementation)
-* `other at=<ns> sender=<a> kind=<k> tok=<n> ok=<0|1>`         (ok = witness)
+* `other at=<ns> sender=<a> v=<variant> tok=<n> ok=<0|1>`      (any other ExecuteMsg variant, named or found in the schema; ok = witness)
+* `migrate at=<ns> to=<kind> ok=<0|1>`                         (MsgMigrateContract by the admin; ok = witness, C20 owns acceptance)
+* `setver v=<a.b.c>`                                           (harness fabrication: rewrite the stored cw2 version)
 * `cpay at=<ns> pay=<n> fee=<n> finders=<-|n>`                 (royalty_payout on the collection's own CollectionInfo)
 * `payout roy=<-|a:share> pay=<n> fee=<n> finders=<-|n>`       (royalty_payout, pure)
 
-Answers: state ops `ok <obs>` / `err <obs>`; payout ops `ok <amount> <msgs>` / `err`.
+Answers: state ops `ok <obs>` / `err <obs>` with `<obs>` = `roy=… upd=… frozen=… creator=… ## kind=… name=… ver=… desc=… image=… link=… explicit=… stt=…`
+(after ` ## `: observations outside C10's projection — differences there are DRIFT, not disagreement);
+payout ops `ok <amount> <msgs>` / `err`.
 -/
 open LP LP.Proto LP.Royalty
 
@@ -54,10 +59,22 @@ def renderOptBool : Option Bool → String
 def renderRoy : Option RoyaltyInfo → String
   | none => "-" | some r => s!"{r.addr}:{r.share}"
 
+def renderKind : Kind → String
+  | .base => "base" | .nt => "nt" | .updatable => "updatable" | .onchain => "onchain"
+
+def kind? : String → Option Kind
+  | "base" => some .base | "nt" => some .nt | "updatable" => some .updatable | "onchain" => some .onchain
+  | _ => none
+
+def ver? (s : String) : Option Ver :=
+  match s.splitOn "." with
+  | [a, b, c] => do let x ← nat? a; let y ← nat? b; let z ← nat? c; pure (x, y, z)
+  | _ => none
+
 def obs : Option Coll → String
   | none => "none"
   | some c =>
-    s!"creator={c.creator} desc={c.descLen} image={c.image} link={renderOpt c.link} explicit={renderOptBool c.explicit} stt={renderOpt c.startTrading} roy={renderRoy c.royalty} frozen={if c.frozen then 1 else 0} upd={c.updatedAt}"
+    s!"roy={renderRoy c.royalty} upd={c.updatedAt} frozen={if c.frozen then 1 else 0} creator={c.creator} ## kind={renderKind c.kind} name={renderKind c.name} ver={c.ver.1}.{c.ver.2.1}.{c.ver.2.2} desc={c.descLen} image={c.image} link={renderOpt c.link} explicit={renderOptBool c.explicit} stt={renderOpt c.startTrading}"
 
 def answer (old : Option Coll) (r : Except Err Coll) : Option Coll × String :=
   match r with
@@ -81,6 +98,7 @@ def c10Line (st : Option Coll) (line : String) : Option Coll × String :=
   let r : Option (Option Coll × String) :=
     match ws.head? with
     | some "inst" => do
+      let kind ← (kv ws "kind").bind kind?
       let now ← natKv ws "at"; let via ← boolKv ws "via"; let funds ← natKv ws "funds"
       let minter ← natKv ws "minter"; let creator ← natKv ws "creator"; let desc ← natKv ws "desc"
       let image ← natKv ws "image"; let link ← optNatKv ws "link"; let explicit ← optBoolKv ws "explicit"
@@ -89,7 +107,7 @@ def c10Line (st : Option Coll) (line : String) : Option Coll × String :=
       | some _ => pure (st, s!"err {obs st}")       -- protocol convention: one collection per case
       | none =>
         pure (answer none (instantiate now
-          { senderIsContract := via, funds := funds, minter := minter, creator := creator, descLen := desc,
+          { kind := kind, senderIsContract := via, funds := funds, minter := minter, creator := creator, descLen := desc,
             image := image, link := link, explicit := explicit, startTrading := stt, royalty := roy }))
     | some "upd" => do
       let desc ← optNatKv ws "desc"; let image ← optNatKv ws "image"; let link ← nat2Kv ws "link"
@@ -102,6 +120,16 @@ def c10Line (st : Option Coll) (line : String) : Option Coll × String :=
     | some "other" => do
       let ok ← boolKv ws "ok"
       execOn st ws (.other ok)
+    | some "migrate" => do
+      let now ← natKv ws "at"; let to ← (kv ws "to").bind kind?; let ok ← boolKv ws "ok"
+      match st with
+      | none => pure (none, "err none")
+      | some c => pure (answer st (step c ⟨now, 0, .migrate to ok⟩))
+    | some "setver" => do
+      let v ← (kv ws "v").bind ver?
+      match st with
+      | none => pure (none, "err none")
+      | some c => pure (answer st (step c ⟨0, 0, .setver v⟩))
     | some "cpay" =>
       match st with
       | none => some (st, "err")
